@@ -5,6 +5,7 @@ from pyvc import externals_chem  # noqa: F401  assumed contracts of deepcopy / R
 from . import bond  # noqa: F401
 from . import core  # noqa: F401
 from . import mol_gen  # noqa: F401
+from . import distribution  # noqa: F401
 from . import stochastic  # noqa: F401
 from . import mixture  # noqa: F401
 from . import system  # noqa: F401
